@@ -123,6 +123,9 @@ func (m *coroModel) matchTemplate(l *cmdLit, t *cmdTemplate) []string {
 	}
 	for f, got := range l.Fields {
 		if _, ok := t.Fields[f]; !ok {
+			if got == "nil" {
+				continue // an explicit nil is the field left unset
+			}
 			diffs = append(diffs, fmt.Sprintf("%s: found %s, spec leaves it unset", f, got))
 		}
 	}
